@@ -25,6 +25,7 @@ func main() {
 	only := flag.String("rule", "", "run only this rule (debugging)")
 	verbose := flag.Bool("v", false, "print every obligation")
 	list := flag.Bool("list", false, "list properties and their rules")
+	noReplay := flag.Bool("noreplay", false, "do not write a replay file (used by the self-test on scratch copies)")
 	dumpConsts := flag.Bool("dump-consts", false, "print the error-constant table extracted from the source (maintenance)")
 	flag.Parse()
 
@@ -61,7 +62,12 @@ func main() {
 	t0 := time.Now()
 	outDir := filepath.Join(*verif, "out")
 	replay := filepath.Join(outDir, *prop+".violations.json")
-	os.Remove(replay)
+	if *noReplay {
+		replay = filepath.Join(os.TempDir(), fmt.Sprintf("s2lint-replay-%d.json", os.Getpid()))
+		defer os.Remove(replay)
+	} else {
+		os.Remove(replay)
+	}
 
 	fail := func(msg string) {
 		// Loader failures are violations of "the checker can see the program".
@@ -158,6 +164,14 @@ func main() {
 	for _, o := range violations {
 		fmt.Printf("FAIL %s\n     at %s in %s\n     %s: %s\n", o.Key, o.Site, o.Func, o.Status, o.Detail)
 	}
+	var st *selfTestResult
+	if *tier == "thorough" && !*noReplay {
+		r := selfTest(*prop, *repo, *verif)
+		st = &r
+		fmt.Printf("  self-test on scratch copies: %d/%d seeded changes against %s detected (missed: %v; not applicable: %v); %d/%d behaviour-preserving refactors silent %v\n",
+			r.SeedsDetected, r.SeedsApplied, *prop, r.SeedsMissed, r.SeedsSkipped, r.RefactorsSilent, r.RefactorsApplied, r.RefactorAlarms)
+	}
+	selfTestEvidence = st
 	wall := time.Since(t0).Seconds()
 	writeEvidence(*evidence, *prop, *tier, seed, spec, ctx, results, len(violations), wall, knownHits, "")
 	if len(violations) > 0 {
@@ -173,6 +187,8 @@ func main() {
 	}
 	fmt.Printf("s2lint: property %s: all obligations discharged (%d known findings) in %.1fs\n", *prop, len(knownHits), wall)
 }
+
+var selfTestEvidence *selfTestResult
 
 func isFlagSet(name string) bool {
 	set := false
@@ -232,6 +248,9 @@ func writeEvidence(path, prop, tier string, seed int, spec rules.PropertySpec, c
 		"known_findings": len(known),
 		"checker_cmd":    strings.Join(os.Args, " "),
 		"exhaustive":     false,
+	}
+	if selfTestEvidence != nil {
+		cov["self_test"] = selfTestEvidence
 	}
 	if ctx != nil {
 		cov["analysed"] = map[string]interface{}{
